@@ -318,25 +318,75 @@ def _entity_list_writers(qual: str, fn: ast.AST, rel: str, out_list: list, out_s
 
 
 def _remove_ent_guards(fn: ast.FunctionDef) -> tuple[bool, bool]:
-    """VMF.remove_ent: is every index removal preceded (at the top level of the function) by an early `return` taken
-    when the item is the worldspawn / when the item is still in the entity list (it was added more than once)?"""
+    """VMF.remove_ent: are the index removals reached only when the item is not the worldspawn / is no longer in the
+    entity list (it may have been added more than once)?  Recognised: an earlier `if <a> or <b>: return` at the top
+    level of the function, or an enclosing `if <not a> and <not b>:`; a test may be held in a local.  The membership
+    test only counts when it is evaluated after `self.entities.remove(item)`."""
     if len(fn.args.args) != 2:
-        raise TranslateError(f'VMF.remove_ent: unexpected parameters')
+        raise TranslateError('VMF.remove_ent: unexpected parameters')
     item = fn.args.args[1].arg
-    spawn_guard = listed_guard = False
+    env: dict[str, tuple[ast.expr, bool]] = {}
+
+    def is_item(e: ast.AST) -> bool:
+        return isinstance(e, ast.Name) and e.id == item
+
+    def pos(t: ast.expr, removed: bool, depth: int = 0) -> set[str]:
+        """the facts among {spawn, listed} each of which makes `t` true (t: a disjunction)"""
+        if depth > 8:
+            return set()
+        if isinstance(t, ast.BoolOp) and isinstance(t.op, ast.Or):
+            return set().union(*(pos(x, removed, depth + 1) for x in t.values))
+        if isinstance(t, ast.UnaryOp) and isinstance(t.op, ast.Not):
+            return neg(t.operand, removed, depth + 1)
+        if isinstance(t, ast.Name) and t.id in env:
+            return pos(env[t.id][0], env[t.id][1], depth + 1)
+        if isinstance(t, ast.Compare) and len(t.ops) == 1:
+            a, b = t.left, t.comparators[0]
+            if isinstance(t.ops[0], ast.Is) and ((is_item(a) and _is_attr(b, 'spawn')) or (is_item(b) and _is_attr(a, 'spawn'))):
+                return {'spawn'}
+            if isinstance(t.ops[0], ast.In) and is_item(a) and _is_attr(b, 'entities') and removed:
+                return {'listed'}
+        return set()
+
+    def neg(t: ast.expr, removed: bool, depth: int = 0) -> set[str]:
+        """the facts that are excluded when `t` is true (t: a conjunction of negated facts)"""
+        if depth > 8:
+            return set()
+        if isinstance(t, ast.BoolOp) and isinstance(t.op, ast.And):
+            return set().union(*(neg(x, removed, depth + 1) for x in t.values))
+        if isinstance(t, ast.UnaryOp) and isinstance(t.op, ast.Not):
+            return pos(t.operand, removed, depth + 1)
+        if isinstance(t, ast.Name) and t.id in env:
+            return neg(env[t.id][0], env[t.id][1], depth + 1)
+        if isinstance(t, ast.Compare) and len(t.ops) == 1:
+            a, b = t.left, t.comparators[0]
+            if isinstance(t.ops[0], ast.IsNot) and ((is_item(a) and _is_attr(b, 'spawn')) or (is_item(b) and _is_attr(a, 'spawn'))):
+                return {'spawn'}
+            if isinstance(t.ops[0], ast.NotIn) and is_item(a) and _is_attr(b, 'entities') and removed:
+                return {'listed'}
+        return set()
+
+    excluded: set[str] = set()
+    removed = False
+    stores = _stores(fn)
     for st in fn.body:
         if any(isinstance(n, ast.Call) and isinstance(n.func, ast.Name) and n.func.id == '_remove_copyset' for n in ast.walk(st)):
+            if isinstance(st, ast.If) and not any(
+                    isinstance(n, ast.Call) and isinstance(n.func, ast.Name) and n.func.id == '_remove_copyset'
+                    for o in st.orelse for n in ast.walk(o)):
+                excluded |= neg(st.test, removed)
             break
-        if isinstance(st, ast.If) and len(st.body) == 1 and isinstance(st.body[0], ast.Return) and not st.orelse:
-            tests = st.test.values if isinstance(st.test, ast.BoolOp) and isinstance(st.test.op, ast.Or) else [st.test]
-            for t in tests:
-                if isinstance(t, ast.Compare) and len(t.ops) == 1 and isinstance(t.left, ast.Name) and t.left.id == item:
-                    rhs = t.comparators[0]
-                    if isinstance(t.ops[0], ast.Is) and _is_attr(rhs, 'spawn'):
-                        spawn_guard = True
-                    if isinstance(t.ops[0], ast.In) and _is_attr(rhs, 'entities'):
-                        listed_guard = True
-    return spawn_guard, listed_guard
+        if any(isinstance(n, ast.Call) and isinstance(n.func, ast.Attribute) and n.func.attr == 'remove'
+               and _is_attr(n.func.value, 'entities') for n in ast.walk(st)):
+            removed = True
+        if isinstance(st, ast.AnnAssign) and st.value is not None:
+            st = ast.Assign(targets=[st.target], value=st.value, lineno=st.lineno)
+        if isinstance(st, ast.Assign) and len(st.targets) == 1 and isinstance(st.targets[0], ast.Name) \
+                and stores.get(st.targets[0].id) == 1:
+            env[st.targets[0].id] = (st.value, removed)
+        if isinstance(st, ast.If) and _exits(st.body) and isinstance(st.body[-1], ast.Return) and not st.orelse:
+            excluded |= pos(st.test, removed)
+    return 'spawn' in excluded, 'listed' in excluded
 
 
 def translate() -> tuple[str, dict]:
